@@ -37,6 +37,9 @@ var lockTargets = []lockTarget{
 	{"src/app/project_runner.go", "ProjectRunner",
 		map[string]bool{"runningProcesses": true, "doneProcesses": true, "processStates": true, "processLogs": true, "project.Processes": true, "projectState": true, "exitCode": true},
 		map[string]bool{"procConfMutex": true, "logsMutex": true, "statesMutex": true, "runProcMutex": true, "doneProcMutex": true}},
+	{"src/app/process.go", "Process",
+		map[string]bool{"procState": true, "startTime": true, "waitForStoppedCtx": true, "done": true},
+		map[string]bool{"stateMtx": true, "timeMutex": true, "mtxStopFn": true, "Mutex": true}},
 	{"src/pclog/process_log_buffer.go", "ProcessLogBuffer",
 		map[string]bool{"buffer": true, "observers": true},
 		map[string]bool{"mx": true}},
@@ -157,6 +160,17 @@ func (w *lockWalker) expr(e ast.Expr, held map[string]bool) {
 						return false
 					}
 				}
+				// the embedded mutex: recv.Lock() / recv.Unlock()
+				if id, ok := se.X.(*ast.Ident); ok && id.Name == w.recv && w.t.mutexes["Mutex"] {
+					switch se.Sel.Name {
+					case "Lock":
+						held["Mutex"] = true
+						return false
+					case "Unlock":
+						delete(held, "Mutex")
+						return false
+					}
+				}
 				// call of another method of the receiver: remember what is held
 				if id, ok := se.X.(*ast.Ident); ok && id.Name == w.recv {
 					if fi, ok := w.fns[se.Sel.Name]; ok {
@@ -250,6 +264,12 @@ func (w *lockWalker) stmt(s ast.Stmt, held map[string]bool) {
 		// `defer recv.M.Unlock()` keeps the lock to the end: ignore; other deferred calls run at exit
 		if se, ok := x.Call.Fun.(*ast.SelectorExpr); ok {
 			if p := selPath(se.X, w.recv); p != "" && w.t.mutexes[p] {
+				return
+			}
+			if id, ok := se.X.(*ast.Ident); ok && id.Name == w.recv && w.t.mutexes["Mutex"] && (se.Sel.Name == "Unlock" || se.Sel.Name == "Lock") {
+				if se.Sel.Name == "Lock" {
+					held["Mutex"] = true // `defer p.Unlock(); p.Lock()` written in the other order
+				}
 				return
 			}
 		}
